@@ -2,6 +2,8 @@ package main
 
 import (
 	"bytes"
+	"crypto/sha256"
+	"crypto/sha512"
 	"encoding/json"
 	"fmt"
 	"math/big"
@@ -91,8 +93,32 @@ func libVerify(alg keys.Algorithm, pub, msg, sig []byte) (string, bool) {
 		}
 		var k tmed.PubKeyEd25519
 		copy(k[:], pub)
+		if len(sig) > 64 && len(sig) >= 6 {
+			// hardware-wallet form: the 6-byte name of a digest, then exactly one 64-byte signature over
+			// that digest of the message
+			var digest []byte
+			switch string(sig[:6]) {
+			case "SHA224":
+				d := sha256.Sum224(msg)
+				digest = d[:]
+			case "SHA256":
+				d := sha256.Sum256(msg)
+				digest = d[:]
+			case "SHA384":
+				d := sha512.Sum384(msg)
+				digest = d[:]
+			case "SHA512":
+				d := sha512.Sum512(msg)
+				digest = d[:]
+			default:
+				return "", false
+			}
+			if len(sig) != 6+64 {
+				return "", false
+			}
+			return keys.Address(k.Address()).String(), k.VerifyBytes(digest, sig[6:])
+		}
 		if len(sig) != 64 {
-			// (the pre-hash variant for hardware wallets is never produced by the generator)
 			return "", false
 		}
 		return keys.Address(k.Address()).String(), k.VerifyBytes(msg, sig)
@@ -224,6 +250,26 @@ func mutants(w *warm, base hist.TxSpec, rng *rand.Rand) []mutant {
 		s := append([]byte{}, st.Signatures[0].Signed...)
 		s[rng.Intn(len(s))] ^= 1 << uint(rng.Intn(8))
 		st.Signatures[0].Signed = s
+		return true
+	})
+	add("signature-bytes-appended", func(st *action.SignedTx) bool {
+		if len(st.Signatures) == 0 || len(st.Signatures[0].Signed) == 0 || base.Kind == "OLVM" {
+			return false
+		}
+		st.Signatures[0].Signed = append(append([]byte{}, st.Signatures[0].Signed...), 0x90, 0x00)
+		return true
+	})
+	add("signature-digest-name-changed", func(st *action.SignedTx) bool {
+		if len(st.Signatures) == 0 || len(st.Signatures[0].Signed) != 70 {
+			return false
+		}
+		sg := append([]byte{}, st.Signatures[0].Signed...)
+		if string(sg[:6]) == "SHA256" {
+			copy(sg, "SHA512")
+		} else {
+			copy(sg, "SHA256")
+		}
+		st.Signatures[0].Signed = sg
 		return true
 	})
 	add("drop-signer", func(st *action.SignedTx) bool {
@@ -479,6 +525,12 @@ func checkC04(tier string) int {
 			m := &txb.Memo{Tag: fmt.Sprintf("c04-keyed-%d-%s", wm.h, u.Name)}
 			tx := txb.Tx(txb.Send(u.Addr, wm.w.Users[1].Addr, "OLT", "321"), txb.DefaultFee(), m.Next(), u)
 			bases = append(bases, hist.TxSpec{Kind: "SEND", Bytes: tx, Note: "transfer from a " + u.Priv.Keytype.String() + " account", Signers: []string{u.Addr.String()}})
+		}
+		// ... and transfers signed the hardware-wallet way (signature over a digest, prefixed with its name)
+		for k, tag := range []string{"SHA256", "SHA512"} {
+			u := wm.w.Users[0]
+			tx := txb.TxPreHash(txb.Send(u.Addr, wm.w.Users[1].Addr, "OLT", fmt.Sprint(654+k)), txb.DefaultFee(), fmt.Sprintf("c04-prehash-%d-%s", wm.h, tag), tag, u)
+			bases = append(bases, hist.TxSpec{Kind: "SEND", Bytes: tx, Note: "transfer signed over a " + tag + " digest (hardware wallet form)", Signers: []string{u.Addr.String()}})
 		}
 		rng := rand.New(rand.NewSource(wm.seed * 31))
 		var muts [][]mutant
